@@ -146,54 +146,56 @@ func c15(ctx *Ctx) (*Outcome, error) {
 	}
 	cfg := &sem.Config{Prop: "C15", Tier: ctx.Tier, Seed: ctx.Seed, Cases: cases, Classes: docgen.Classes{"bound": true, "nullok": true, "enum": true, "delopt": true}, Valid: 4, PerSite: 8, MaxDocs: 130,
 		Env: ctx.Env, Values: true, IntLim: true, NoMulti: true, Own: classOwner("bound", "valid", "nullok", "enum", "delopt", "pinned")}
-	rep, err := sem.Run(cfg)
-	if err != nil {
-		return nil, err
-	}
 	// census of chosen types (flag-on programs): direct integer properties of the root
 	census, censusBad := 0, 0
 	typesSeen := map[string]int{}
 	var cviol []Viol
-	for _, c := range cases {
-		p := sem.ProgramOf(c.Pair)
-		if p == nil || !p.Usable() {
-			continue
-		}
-		fields := gocheck.StructFields(p.Report.Fset, p.Report.File, "RootJson")
-		for _, pr := range c.Root.Props {
-			s := pr.S
-			chosen := ""
-			if s.Ref != "" {
-				if s.Target == nil || !isPlainInt(s.Target) {
+	cfg.AfterBatch = func(cases []*sem.Case) {
+		for _, c := range cases {
+			p := sem.ProgramOf(c.Pair)
+			if p == nil || !p.Usable() {
+				continue
+			}
+			fields := gocheck.StructFields(p.Report.Fset, p.Report.File, "RootJson")
+			for _, pr := range c.Root.Props {
+				s := pr.S
+				chosen := ""
+				if s.Ref != "" {
+					if s.Target == nil || !isPlainInt(s.Target) {
+						continue
+					}
+					chosen = gocheck.UnderlyingOf(p.Report.Fset, p.Report.File, strings.TrimPrefix(strings.TrimPrefix(s.Ref, "#/$defs/"), "#/definitions/"))
+					s = s.Target
+				} else {
+					if !isPlainInt(s) {
+						continue
+					}
+					for _, f := range fields {
+						if strings.Contains(f.Tag, `json:"`+pr.Name+`"`) || strings.Contains(f.Tag, `json:"`+pr.Name+`,`) {
+							chosen = strings.TrimPrefix(f.Type, "*")
+						}
+					}
+				}
+				if chosen == "" {
 					continue
 				}
-				chosen = gocheck.UnderlyingOf(p.Report.Fset, p.Report.File, strings.TrimPrefix(strings.TrimPrefix(s.Ref, "#/$defs/"), "#/definitions/"))
-				s = s.Target
-			} else {
-				if !isPlainInt(s) {
-					continue
-				}
-				for _, f := range fields {
-					if strings.Contains(f.Tag, `json:"`+pr.Name+`"`) || strings.Contains(f.Tag, `json:"`+pr.Name+`,`) {
-						chosen = strings.TrimPrefix(f.Type, "*")
+				census++
+				typesSeen[chosen]++
+				if msg := typeVerdict(s, chosen); msg != "" {
+					censusBad++
+					if len(cviol) < 5 {
+						b, _ := json.MarshalIndent(map[string]any{"property": "C15", "kind": "type-census", "problem": msg, "schema": json.RawMessage(jsonx.Marshal(s.ToJSON())), "property_name": pr.Name, "emitted": string(p.Src)}, "", " ")
+						path := filepath.Join(evid.ReplayDir(), fmt.Sprintf("C15-census-%d.json", len(cviol)))
+						_ = os.WriteFile(path, b, 0o644)
+						cviol = append(cviol, Viol{Replay: path, Summary: "type census: " + msg + " schema=" + string(jsonx.Marshal(s.ToJSON()))})
 					}
 				}
 			}
-			if chosen == "" {
-				continue
-			}
-			census++
-			typesSeen[chosen]++
-			if msg := typeVerdict(s, chosen); msg != "" {
-				censusBad++
-				if len(cviol) < 5 {
-					b, _ := json.MarshalIndent(map[string]any{"property": "C15", "kind": "type-census", "problem": msg, "schema": json.RawMessage(jsonx.Marshal(s.ToJSON())), "property_name": pr.Name, "emitted": string(p.Src)}, "", " ")
-					path := filepath.Join(evid.ReplayDir(), fmt.Sprintf("C15-census-%d.json", len(cviol)))
-					_ = os.WriteFile(path, b, 0o644)
-					cviol = append(cviol, Viol{Replay: path, Summary: "type census: " + msg + " schema=" + string(jsonx.Marshal(s.ToJSON()))})
-				}
-			}
 		}
+	}
+	rep, err := sem.Run(cfg)
+	if err != nil {
+		return nil, err
 	}
 	o := FromSem(ctx, rep, "integer-heavy schemas whose bounds (boolean and numeric exclusive forms, one- and two-sided) are drawn from the 8/16/32/64-bit signed/unsigned limits and their neighbours; each is generated WITHOUT and WITH --min-sized-ints and both compiled programs run on the same documents (values on/next to every stated bound and every type limit, nulls, absents); each side's verdict is compared with the model (hence with each other) and accepted values must decode identically; plus a go/ast census of the chosen field type of every direct integer property: contains every admitted integer and no narrower sized type does",
 		6000, commonAssumptions)
